@@ -313,6 +313,37 @@ def build_sdmx(spec):
 
 # "ONE" (energy density not proportional to a density power) is excluded on purpose: with it the ML energy
 # density does not vanish in the vacuum, where rhocut and the 1e-16 regulariser are not differentiable.
+NLOF_S = [-1.0, -0.5, -0.25, 0.25, 0.5, 0.75, 1.0]
+
+
+@st.composite
+def st_nlof(draw):
+    """FracLaplSettings by construction: 1-3 distinct powers s (the range the repository's own tests use, -1 .. 1),
+    nk0 scalar features, nk1 / nd1 vector features with up to 3 dot products each (index -1 = density gradient),
+    ndd <= nd1 'dd' features; at least one feature."""
+    npow = draw(st.integers(1, 3))
+    slist = draw(st.lists(st.sampled_from(NLOF_S), min_size=npow, max_size=npow, unique=True))
+    nk0 = draw(st.integers(0, npow))
+    nk1 = draw(st.integers(0, npow))
+    nd1 = draw(st.integers(0, npow))
+    ndd = draw(st.integers(0, nd1))
+    i1 = st.integers(-1, nk1 - 1)
+    id_ = st.integers(-1, nd1 - 1)
+    l1_dots = draw(st.lists(st.tuples(i1, i1).map(list), min_size=0, max_size=3, unique_by=tuple))
+    ld_dots = draw(st.lists(st.tuples(id_, id_).map(list), min_size=0, max_size=3, unique_by=tuple))
+    if nk0 + len(l1_dots) + len(ld_dots) + ndd == 0:
+        nk0 = 1
+    return {"slist": [float(x) for x in slist], "nk0": nk0, "nk1": nk1, "l1_dots": l1_dots, "nd1": nd1,
+            "ld_dots": ld_dots, "ndd": ndd}
+
+
+def build_nlof(spec):
+    from ciderpress.dft.settings import FracLaplSettings
+
+    return FracLaplSettings(list(spec["slist"]), spec["nk0"], spec["nk1"], [tuple(d) for d in spec["l1_dots"]],
+                            nd1=spec["nd1"], ld_dots=[tuple(d) for d in spec["ld_dots"]], ndd=spec["ndd"])
+
+
 MUL_NATIVE = ["LDA_X", "GGA_X_PBE", "GGA_X_CHACHIYO"]
 ADD_NATIVE = ["ZERO", "LDA_X", "GGA_C_PBE", None]
 MUL_LIBXC = ["LDA_X", "GGA_X_PBE", "MGGA_X_R2SCAN", "GGA_X_PBE_SOL"]
@@ -340,7 +371,9 @@ def st_model(draw, sl_modes=("npa", "nst", "np", "ns"), families=("sl", "nldf", 
     sl = draw(st.sampled_from(list(sl_modes)))
     fam = draw(st.sampled_from(list(families)))
     level = "MGGA" if sl in ("npa", "nst") else "GGA"
-    spec = {"sl": sl, "nldf": None, "sdmx": None}
+    spec = {"sl": sl, "nldf": None, "sdmx": None, "nlof": None}
+    if "nlof" in fam:
+        spec["nlof"] = draw(st_nlof())
     if "nldf" in fam:
         kw = dict(nldf_kw or {})
         if level == "GGA":
@@ -369,7 +402,8 @@ def build_settings(spec):
 
     fs = S.FeatureSettings(sl_settings=S.SemilocalSettings(spec["sl"]),
                            nldf_settings=build_nldf(spec["nldf"]) if spec.get("nldf") else None,
-                           sdmx_settings=build_sdmx(spec["sdmx"]) if spec.get("sdmx") else None)
+                           sdmx_settings=build_sdmx(spec["sdmx"]) if spec.get("sdmx") else None,
+                           nlof_settings=build_nlof(spec["nlof"]) if spec.get("nlof") else None)
     if spec.get("normalize", True):
         try:
             fs.assign_reasonable_normalizer()
@@ -403,6 +437,8 @@ def _feature_maps(spec, fs, rng, bounded=False):
     signed = []
     if spec.get("nldf"):
         signed += nldf_signed_flags(spec["nldf"])
+    if spec.get("nlof"):
+        signed += [True] * fs.nlof_settings.nfeat          # feature order: semilocal, nldf, nlof, sdmx
     if spec.get("sdmx"):
         signed += [True] * fs.sdmx_settings.nfeat
     assert i + len(signed) == fs.nfeat, (i, len(signed), fs.nfeat)
@@ -500,11 +536,11 @@ def model_signature(spec):
     return [spec["sl"], None if not n else [n["version"], n["level"], n["rho_mult"],
                                              sorted(set(n.get("jspecs", []) + n.get("l0", []) + n.get("l1", [])))],
             None if not s else [s["cls"], s["pows"]], spec["xc2"],
-            [[k["mode"], k["evals"], k["mul"], k["add"]] for k in spec["kernels"]]]
+            [[k["mode"], k["evals"], k["mul"], k["add"]] for k in spec["kernels"]]] + (
+        [[spec["nlof"]["slist"], spec["nlof"]["nk0"], spec["nlof"]["nk1"], spec["nlof"]["l1_dots"], spec["nlof"]["nd1"],
+          spec["nlof"]["ld_dots"], spec["nlof"]["ndd"]]] if spec.get("nlof") else [])
 
 
-# ---------------------------------------------------------------------------------------------
-# calculators
 
 @st.composite
 def st_calc(draw, has_nldf=True):
